@@ -170,7 +170,8 @@ fn judge_history<K: Kit>(ctx: &Ctx, b: &mut Batch, kit: &K, h: &History, recs: &
                         }
                     }
                     Res::Err(ErrKind::Timeout) => b.count("model[timeout]", 1),
-                    Res::Err(ErrKind::NoSolutionFound) if is_prm || h.params.kind == PKind::Connect => b.count("model[nosolution]", 1),
+                    // a documented outcome for every planner (today only PRM and RRT-Connect use it)
+                    Res::Err(ErrKind::NoSolutionFound) => b.count("model[nosolution]", 1),
                     _ => unexpected("solve"),
                 }
             }
